@@ -86,6 +86,15 @@ theorem rot3_axis (a b d c s : Rat) : linPt (rot3 a b d c s) [a, b, d] = [a, b, 
     List.zipWith_nil_left, List.cons.injEq, and_true]
   refine ⟨?_, ?_, ?_⟩ <;> ring
 
+/-- … and is an isometry when the axis is a unit vector and `c² + s² = 1` -/
+theorem rot3_isometry (a b d c s x y z : Rat) (hu : a * a + b * b + d * d = 1) (hcs : c * c + s * s = 1) :
+    ∃ x' y' z', linPt (rot3 a b d c s) [x, y, z] = [x', y', z'] ∧
+      x' * x' + y' * y' + z' * z' = x * x + y * y + z * z := by
+  refine ⟨_, _, _, rfl, ?_⟩
+  simp only [dot, ratSum, List.zipWith_cons_cons, List.zipWith_nil_right]
+  linear_combination (-((a * x + b * y + d * z) ^ 2 - (a * a + b * b + d * d) * (x * x + y * y + z * z))) * hcs +
+    (-((a * x + b * y + d * z) ^ 2 - (a * a + b * b + d * d) * (x * x + y * y + z * z)) * (1 - c) ^ 2) * hu
+
 /-- `PolarGrid.rotate` (repaired): the angular coordinate of every point grows by the angle. -/
 theorem points_polar_rotate (g : Grid) (α : Rat) (h2 : g.coords.ndim = 2) :
     (g.polarRotate α).coords.points = g.coords.points.map (shiftPt [0, α]) :=
@@ -272,5 +281,7 @@ example : ∃ g g' : Grid, g.system = .cartesian ∧ g.scale (.vector [-2, 3]) =
   ⟨⟨.cartesian, .separated [[0, 1, 3], [0, 2]], .none⟩, _, rfl, rfl⟩
 example : (1 : Rat) ≤ 2 * (3 / 2) * (5 / 2) := by norm_num
 example : ∃ c s : Rat, c * c + s * s = 1 ∧ s ≠ 0 := ⟨3 / 5, 4 / 5, by norm_num, by norm_num⟩
+example : ∃ a b d : Rat, a * a + b * b + d * d = 1 ∧ a ≠ 0 ∧ b ≠ 0 ∧ d ≠ 0 :=
+  ⟨2 / 3, 2 / 3, 1 / 3, by norm_num, by norm_num, by norm_num, by norm_num⟩
 
 end HcipyVerif.Grid
